@@ -13,13 +13,14 @@ Open Scope string_scope.
 Record callmap := mkCallmap {
   cm_setters : list (string * string);   (* With* setter, option field it assigns *)
   cm_encoded : list (string * string);   (* option field, message field written from it *)
-  cm_decoded : list (string * string)    (* message field, option field restored from it *)
+  cm_decoded : list (string * string);   (* message field, option field restored from it *)
+  cm_dguards : list (string * string)    (* message field, guard of the receiver ("nonnil" = pointer presence) *)
 }.
 
-Definition sub_map := mkCallmap sub_setters sub_encoded sub_decoded.
-Definition unsub_map := mkCallmap unsub_setters unsub_encoded unsub_decoded.
-Definition disc_map := mkCallmap disc_setters disc_encoded disc_decoded.
-Definition refresh_map := mkCallmap refresh_setters refresh_encoded refresh_decoded.
+Definition sub_map := mkCallmap sub_setters sub_encoded sub_decoded sub_decode_guards.
+Definition unsub_map := mkCallmap unsub_setters unsub_encoded unsub_decoded unsub_decode_guards.
+Definition disc_map := mkCallmap disc_setters disc_encoded disc_decoded disc_decode_guards.
+Definition refresh_map := mkCallmap refresh_setters refresh_encoded refresh_decoded refresh_decode_guards.
 
 Definition opts := string -> N.
 Definition wire := string -> N.
@@ -35,15 +36,23 @@ Definition wire_of (m : callmap) (f : string) : option string :=
 Definition encode (m : callmap) (o : opts) : wire :=
   fun w => match src_of m w with Some f => o f | None => 0%N end.
 
+(* the receiver restores the message field only under a condition on its VALUE (e.g. offset > 0):
+   some value is then dropped although the sender transmitted it; 1 stands for such a value *)
+Definition value_guarded (m : callmap) (w : string) : bool :=
+  existsb (fun g => String.eqb (fst g) w && negb (String.eqb (snd g) "nonnil")) (cm_dguards m).
+
 Definition decode (m : callmap) (v : wire) : opts :=
-  fun f => match wire_of m f with Some w => v w | None => 0%N end.
+  fun f => match wire_of m f with
+           | Some w => if value_guarded m w && (v w =? 1)%N then 0%N else v w
+           | None => 0%N
+           end.
 
 (* what the receiving node applies, given what the caller set *)
 Definition roundtrip (m : callmap) (o : opts) : opts := decode m (encode m o).
 
 Definition carried_b (m : callmap) (f : string) : bool :=
   match wire_of m f with
-  | Some w => match src_of m w with Some f' => String.eqb f' f | None => false end
+  | Some w => match src_of m w with Some f' => String.eqb f' f && negb (value_guarded m w) | None => false end
   | None => false
   end.
 
